@@ -8,7 +8,7 @@ use super::common::{pick_iface, valid_history};
 use super::{brief, exec, process_exec, run_exec, scenario_sig};
 use crate::gen::{self, Payloads};
 use crate::runner::{Prop, Stats, Verdict};
-use crate::scenario::{render, Msg, Scenario};
+use crate::scenario::{fault, render, Msg, Scenario};
 
 pub struct C02T;
 pub static C02: C02T = C02T;
@@ -45,6 +45,49 @@ fn differ(a: &Out, b: &Out) -> Option<&'static str> {
     None
 }
 
+/// On the real code every rewritten one-unit message must behave as the harness
+/// model says its header does: a plain unit enters exactly one handler and reports
+/// nothing; a unit built to fail during execution reports exactly one error that
+/// is not "undefined header" (its handler is entered only for handler-raised errors).
+fn rewritten_is_valid(rw: &[Msg], o: &Out) -> bool {
+    let mut enters = vec![0u32; rw.len()];
+    let mut errs: Vec<Vec<microscpi::Error>> = vec![Vec::new(); rw.len()];
+    let mut cur = 0usize;
+    for e in &o.events {
+        match e {
+            Ev::Call(k) => cur = *k as usize,
+            Ev::Enter { .. } => {
+                if let Some(x) = enters.get_mut(cur) {
+                    *x += 1
+                }
+            }
+            Ev::Err(x) => {
+                if let Some(v) = errs.get_mut(cur) {
+                    v.push(*x)
+                }
+            }
+            _ => {}
+        }
+    }
+    for (i, m) in rw.iter().enumerate() {
+        let Some(u) = m.units.first() else {
+            if enters[i] != 0 || !errs[i].is_empty() {
+                return false;
+            }
+            continue;
+        };
+        let ok = match u.fault {
+            fault::NONE => enters[i] == 1 && errs[i].is_empty(),
+            fault::HANDLER => enters[i] == 1 && errs[i].len() == 1,
+            _ => enters[i] == 0 && errs[i].len() == 1 && errs[i][0] != microscpi::Error::UndefinedHeader,
+        };
+        if !ok {
+            return false;
+        }
+    }
+    true
+}
+
 fn bytes_have_inner_newline(msgs: &[Msg]) -> bool {
     msgs.iter().any(|m| {
         let b = m.render();
@@ -78,7 +121,27 @@ impl Prop for C02T {
         // a quarter of the histories carry separators and newlines inside string /
         // block payloads, so that a message is continued by a later read under process
         let pay = if rng.chance(1, 4) { Payloads::SpecialNl } else { Payloads::Plain };
-        let msgs = valid_history(&mut rng, &m, k, max_units, pay, true);
+        let mut msgs = valid_history(&mut rng, &m, k, max_units, pay, true);
+        // a quarter of the messages get one unit that fails during *execution* (wrong
+        // parameter count, unconvertible parameter, handler error): its header is valid,
+        // so it moves the path context like any other unit
+        for msg in msgs.iter_mut() {
+            if msg.units.is_empty() || !rng.chance(1, 4) {
+                continue;
+            }
+            let j = rng.below(msg.units.len());
+            let mut ctx: Vec<String> = Vec::new();
+            for u in &msg.units[..j] {
+                ctx = gen::ctx_after(&ctx, u);
+            }
+            let kind = *rng.pick(&[fault::ARITY, fault::CONVERT, fault::HANDLER]);
+            if let Some(f) = gen::make_faulty(&mut rng, m, &ctx, &msg.units[j], kind) {
+                // more than MAX_ARGS parameters is rejected by the parser, not at execution
+                if f.args.len() <= 10 {
+                    msg.units[j] = f;
+                }
+            }
+        }
         let need = need_n(&msgs).max(need_n(&rewrite(&msgs)));
         let ns: Vec<usize> = IFACES[iface].ns.iter().copied().filter(|&n| n >= need).collect();
         let n = if ns.is_empty() { *IFACES[iface].ns.last().unwrap() } else { ns[rng.below(ns.len().min(3))] };
@@ -108,14 +171,15 @@ impl Prop for C02T {
         let susp = sc.sched(2).susp;
 
         // (c) rewritten history through run: must be valid on the real code
-        let c_run = exec(&run_exec(sc, rw.clone(), vec![0, rw.len()], Sink::Sim(None), susp.clone()), st);
+        let (_, rw_bounds) = render(&rw_msgs);
+        let c_run = exec(&run_exec(sc, rw.clone(), rw_bounds.clone(), Sink::Sim(None), susp.clone()), st);
         if c_run.unsupported {
             return Verdict::Skip("skip:unsupported-configuration");
         }
         if c_run.crashed() {
             return Verdict::Skip("skip:crashed(C05)");
         }
-        if !c_run.errors().is_empty() || c_run.handlers().len() != total_units {
+        if !rewritten_is_valid(&rw_msgs, &c_run) {
             if std::env::var("SIM_DEBUG").is_ok() {
                 println!("DEBUG rewritten: {}\n  {}", crate::scenario::show(&rw), brief(&c_run));
             }
@@ -213,7 +277,9 @@ impl Prop for C02T {
             if b.crashed() || c_proc.crashed() {
                 return Verdict::Skip("skip:crashed(C05)");
             }
-            if !c_proc.errors().is_empty() || c_proc.handlers().len() != total_units {
+            let n_faulty = rw_msgs.iter().filter(|m| m.faulty().is_some()).count();
+            let n_enter = rw_msgs.iter().filter(|m| m.units.first().map(|u| matches!(u.fault, fault::NONE | fault::HANDLER)).unwrap_or(false)).count();
+            if c_proc.errors().len() != n_faulty || c_proc.handlers().len() != n_enter {
                 st.bump("skip:rewritten-history-not-valid-in-process");
             } else if let Some(what) = differ(&b, &c_proc) {
                 return Verdict::Violation {
@@ -240,6 +306,9 @@ impl Prop for C02T {
         if rel {
             st.bump("reach:relative_unit_below_root");
         }
+        if sc.msgs.iter().any(|m| m.faulty().map(|j| j + 1 < m.units.len()).unwrap_or(false)) {
+            st.bump("reach:unit_after_a_unit_that_failed_in_execution");
+        }
         if sc.msgs.iter().any(|m| m.units.is_empty()) {
             st.bump("reach:blank_message");
         }
@@ -262,6 +331,6 @@ impl Prop for C02T {
         ]
     }
     fn probes(&self) -> Vec<&'static str> {
-        vec!["reach:relative_unit_below_root", "reach:relative_unit_in_message_with_payload_newline", "reach:blank_message", "reach:message_ending_in_semicolon", "reach:compared_through_process", "fired:suspension"]
+        vec!["reach:relative_unit_below_root", "reach:unit_after_a_unit_that_failed_in_execution", "reach:relative_unit_in_message_with_payload_newline", "reach:blank_message", "reach:message_ending_in_semicolon", "reach:compared_through_process", "fired:suspension"]
     }
 }
